@@ -83,7 +83,10 @@ def pool_programs(r):
     redefine = '%s = %d\n%s:\n    addi t0, t0, %s\n' % (kon, (val + 7) % 2000, lab2, kon)
     clash = '%s = %d\n    nop\n%s:\n    addi t0, t0, %s\n    dw %s\n    li t1, %s\n%s:\n    lw a0, %s(sp)\n' % (kon, val, kon, kon, kon, kon, lab, kon)
     blobprog = '%s:\n    nop\ninclude_bytes blob.dat\nalign 4\n%s:\n    j %s\n    dw %s\n' % (lab, lab2, lab, lab2)
-    entries = [('clash', clash), ('blob', blobprog), ('definer', definer), ('user', user), ('user-labels', user_labels_only), ('alias-definer', alias_def), ('alias-user', alias_user),
+    li_small = '%s = 5\n    li t0, %s\n%s:\n    li t1, %s + 1\n    j %s\n' % (kon2, kon2, lab, kon2, lab)
+    li_big = '%s = 0x12345\n    li t0, %s\n%s:\n    li t1, %s + 1\n    j %s\n' % (kon2, kon2, lab, kon2, lab)
+    multi_alias = 'RA1 = t0\nRB1 = s0\nRC1 = a5\n%s:\n%s:\n    add RA1, RB1, RC1\n    sub RB1, RB1, RC1\n    sw RC1, 4(RB1)\n    beq RB1, x0, %s\n    jal x0, %s\n' % (lab, lab2, lab, lab2)
+    entries = [('clash', clash), ('blob', blobprog), ('li-small', li_small), ('li-big', li_big), ('multi-alias', multi_alias), ('definer', definer), ('user', user), ('user-labels', user_labels_only), ('alias-definer', alias_def), ('alias-user', alias_user),
                ('shifted', shifted), ('compressy', compressy), ('redefine', redefine)]
     # failing programs, one per fault class
     for cls in r.sample(sorted(c for c in progs.FAULTS if c != 'duplicate-label'), 3):
@@ -135,7 +138,8 @@ def make_history(r, nsteps=None):
             # bias towards pairs: after a definer, run a user
             if ops and ops[-1]['op'] == 'assemble' and r.random() < 0.35:
                 prev = pool[ops[-1]['prog']]['kind']
-                want = {'definer': ('user', 'user-labels', 'redefine'), 'alias-definer': ('alias-user',), 'tree': ('user', 'user-labels')}.get(prev)
+                want = {'definer': ('user', 'user-labels', 'redefine'), 'alias-definer': ('alias-user',), 'tree': ('user', 'user-labels'),
+                        'li-small': ('li-big',), 'li-big': ('li-small',), 'multi-alias': ('alias-user', 'user-labels')}.get(prev)
                 if want:
                     cands = [j for j, p in enumerate(pool) if p['kind'] in want]
                     if cands:
